@@ -765,6 +765,9 @@ impl Router {
 
                         self.scheduler.untrack(id, filter);
                         self.datalog.remove_waiters_for_id(id, filter);
+                        // a publish earlier in this batch may already have woken the request
+                        self.notifications
+                            .retain(|(conn_id, request)| *conn_id != id || request.filter != *filter);
                         reasons.push(UnsubAckReason::Success);
                     }
 
